@@ -9,7 +9,11 @@ Tie (harness/global.cpp, ocaml/driver_global.ml):
       limits == C++ limits, model spreading == C++ spreadCoordX/Y on the final bins (rigorous tolerance).
   GR  DensityGrid::fromIspdCircuit alone: margin clipping + bin limits, exact.
   SP  spreadCoordX/Y on dyadic inputs (every binary32 operation exact): exact equality with the model.
-Completion, finiteness and the binary32 rounding are validated by these runs only (not provable: Eigen CG)."""
+  SF  spreadCoordX/Y on NON-dyadic inputs against the Flocq binary32 model coq/SpreadFloat.v evaluated inside Coq by
+      vm_compute: bit-for-bit equality (float_tie, <= 100 cases per run), and the circuit of finding F21 through
+      Circuit::placeGlobal (f21_replay).
+Completion, finiteness and the binary32 rounding of blendPlacement / the solver are validated by these runs only
+(not provable: Eigen CG); the binary32 arithmetic of spreadCells is modelled and analysed (Properties_C06.v, last section)."""
 import json
 from fractions import Fraction
 
@@ -537,8 +541,10 @@ def run(ctx):
     cov = dict(proof)
     cov.update({
         "trusted_base": common.TRUSTED_BASE + [
-            "binary32 rounding of spreadCells/blendPlacement, Eigen's conjugate gradient, the rough legalizer's choice of bins and "
+            "binary32 rounding of blendPlacement, Eigen's conjugate gradient, the rough legalizer's choice of bins and "
             "completion/finiteness are NOT modelled: validated on the runs of this check only",
+            "the binary32 model of spreadCells (coq/SpreadFloat.v, Flocq) is tied bit for bit to the compiled code under the build flags "
+            "-O1, x86-64 SSE, no -ffast-math, no FMA contraction; its theorems use the standard library's real-number axioms",
             "bins (limits, cell lists) are inputs of the spreading model; that every cell of positive area is in exactly one bin is C16's claim",
             "harness replica of GlobalPlacer::place (5 statements, private access) supplies the final LB/UB vectors; it is compared with "
             "Circuit::placeGlobal on every exposed placement"],
@@ -559,6 +565,8 @@ def run(ctx):
         "completion without error, finiteness and the single-precision rounding are validated on the generated runs only (Eigen CG is outside the model)",
         "the spreading theorems take the bins as given (each cell in at most one bin, demands of binned cells non-negative): C16",
         "model follows the tree with the F15 repair (cells in no bin reported at their clamped target)",
+        "binary32: the unclamped and the clamped (candidate repair of F21) interpolation of spreadCells are both modelled; the run must equal one "
+        "of them bit for bit on every case; F21 is a known finding while /repo carries the unclamped one",
         "sideMargin is kept at its default (it is not range-checked by the parameter check and not part of the property's quantifier); "
         "the grid theorem needs margin >= 0"])
 
@@ -566,6 +574,8 @@ def run(ctx):
 def replay(ctx, path):
     r = json.load(open(path))["replay"]
     case = r["case"]
+    if case.startswith("f21_case()"):      # finding F21: the circuit is generated, not stored
+        case = f21_case()
     harness = common.build_harness("global")
     driver = common.build_driver("global")
     ev = Eval(harness, driver)
